@@ -105,7 +105,7 @@ fn materialise(root: &Path, n: usize, adj: &[Vec<bool>], variant: u64, dangling:
                 pkg.push_str(&format!("[[dependencies]]\nuri = \"libcnb:{}\"\n", id_of(*j)));
             }
             if dangling == Some(i) {
-                pkg.push_str("[[dependencies]]\nuri = \"libcnb:vp/missing\"\n");
+                pkg.push_str(if variant >> 2 & 1 == 1 { "[[dependencies]]\nuri = \"libcnb:vp/missing_one\"\n" } else { "[[dependencies]]\nuri = \"libcnb:vp/missing\"\n" });
             }
             fs::write(d.join("package.toml"), pkg).unwrap();
         } else if composite {
@@ -113,7 +113,13 @@ fn materialise(root: &Path, n: usize, adj: &[Vec<bool>], variant: u64, dangling:
             if deps.is_empty() {
                 order.push_str("[[order.group]]\nid = \"vp/none\"\nversion = \"1.0.0\"\n");
             }
-            for j in &deps {
+            // variant bit 7: two alternative [[order]] tables that share only their first group (a, b | a, c, ...): every buildpack
+            // named in package.toml is a dependency, whichever alternatives mention it
+            let split = variant >> 7 & 1 == 1 && deps.len() >= 2;
+            for (k, j) in deps.iter().enumerate() {
+                if split && k == 2.min(deps.len() - 1) {
+                    order.push_str(&format!("[[order]]\n[[order.group]]\nid = \"{}\"\nversion = \"1.0.0\"\n", id_of(deps[0])));
+                }
                 order.push_str(&format!("[[order.group]]\nid = \"{}\"\nversion = \"1.0.0\"\n", id_of(*j)));
             }
             fs::write(d.join("buildpack.toml"), format!("api = \"0.10\"\n[buildpack]\nid = \"{}\"\nversion = \"1.0.0\"\n[[order]]\n{order}", id_of(i))).unwrap();
@@ -125,7 +131,7 @@ fn materialise(root: &Path, n: usize, adj: &[Vec<bool>], variant: u64, dangling:
                 pkg.push_str(&format!("[[dependencies]]\nuri = \"libcnb:{}\"\n", id_of(*j)));
             }
             if dangling == Some(i) {
-                pkg.push_str("[[dependencies]]\nuri = \"libcnb:vp/missing\"\n");
+                pkg.push_str(if variant >> 2 & 1 == 1 { "[[dependencies]]\nuri = \"libcnb:vp/missing_one\"\n" } else { "[[dependencies]]\nuri = \"libcnb:vp/missing\"\n" });
             }
             pkg.push_str("[[dependencies]]\nuri = \"../some/relative/path\"\n[[dependencies]]\nuri = \"urn:cnb:registry:heroku/nodejs@1.2.3\"\n");
             fs::write(d.join("package.toml"), pkg).unwrap();
@@ -303,7 +309,7 @@ pub fn run(args: &[String]) {
             if counter % nshards != shard {
                 continue;
             }
-            let variant = ((counter.wrapping_mul(0x9E37_79B9_7F4A_7C15) >> 40) + seed) % 128;
+            let variant = ((counter.wrapping_mul(0x9E37_79B9_7F4A_7C15) >> 40) + seed) % 256;
             // every third graph is laid out at one and the same path (removed and rebuilt in between): nothing learnt about a path
             // while loading an earlier workspace may leak into the next
             let root = if counter % 3 == 0 { work.join("reused") } else { work.join(format!("d{counter}")) };
@@ -334,7 +340,7 @@ pub fn run(args: &[String]) {
         }
         let sels = selections(n, Some((40, &mut rng)));
         let root = if r % 2 == 0 { work.join("reused") } else { work.join(format!("r{r}")) };
-        check_dag(&root, n, &adj, rng.below(128), &sels, &mut tally);
+        check_dag(&root, n, &adj, rng.below(256), &sels, &mut tally);
     }
     // dangling dependency
     let mut dangling_checked = 0;
@@ -353,7 +359,7 @@ pub fn run(args: &[String]) {
         }
         let who = rng.below(n as u64) as usize;
         let root = work.join(format!("m{r}"));
-        materialise(&root, n, &adj, rng.below(128), Some(who));
+        materialise(&root, n, &adj, rng.below(256), Some(who));
         dangling_checked += 1;
         match build_libcnb_buildpacks_dependency_graph(&root) {
             Ok(_) => {
